@@ -1,7 +1,124 @@
 #!/usr/bin/env python3
-"""Engine K driver (Kani harnesses) - filled in later."""
-import sys
+"""Engine K driver: Kani/CBMC proof harnesses over the real crate (integer index / size arguments).
+
+run(prop, tier, seed, spec, log) -> dict used by /verif/check
+  spec = {"select": [substring, ...]}  harness-name substrings run for this property.
+All selected harnesses must verify; `zz_selftest_wrong` (a deliberately wrong twin) must FAIL on
+every run - it shows that a call which returns instead of rejecting is reported.
+"""
+import os, re, subprocess, sys, json, time, hashlib, fcntl
+
+HERE = os.path.dirname(os.path.abspath(__file__))
+CRATE = os.path.join(HERE, "kani-harness")
+VERIF = os.path.dirname(HERE)
+TARGET = os.path.join(VERIF, ".build", "kani-target")
+ENV = dict(os.environ, CARGO_NET_OFFLINE="true")
+SELFTEST = "zz_selftest_wrong"
+
+
+def _kani(args, timeout):
+    os.makedirs(os.path.join(VERIF, ".build"), exist_ok=True)
+    lock = open(os.path.join(VERIF, ".build", "kani.lock"), "w")
+    fcntl.flock(lock, fcntl.LOCK_EX)
+    try:
+        # the lock file of /repo is authoritative for the dependency versions
+        try:
+            src = open("/repo/Cargo.lock").read()
+            dst = os.path.join(CRATE, "Cargo.lock")
+            if not os.path.exists(dst):
+                open(dst, "w").write(src)
+        except OSError:
+            pass
+        cmd = ["cargo", "kani", "--target-dir", TARGET] + args
+        try:
+            r = subprocess.run(cmd, cwd=CRATE, capture_output=True, text=True, timeout=timeout, env=ENV)
+            return r.returncode, r.stdout + "\n" + r.stderr
+        except subprocess.TimeoutExpired as e:
+            return 124, "TIMEOUT after %ds\n%s" % (timeout, (e.stdout or b"").decode(errors="replace")[-2000:] if isinstance(e.stdout, bytes) else str(e.stdout)[-2000:])
+    finally:
+        fcntl.flock(lock, fcntl.LOCK_UN)
+        lock.close()
+
+
+def harness_names(select):
+    src = open(os.path.join(CRATE, "src", "lib.rs")).read()
+    names = re.findall(r"\n\s*fn ((?:c\d\d|zz)_\w+)\s*\(\)", src)
+    # macro-generated names
+    names += re.findall(r"_harnesses!\((\w+), (\w+),", src)
+    flat = []
+    for n in names:
+        if isinstance(n, tuple):
+            flat += list(n)
+        else:
+            flat.append(n)
+    flat = sorted(set(flat))
+    return [n for n in flat if any(s in n for s in select) or n == SELFTEST]
+
+
 def run(prop, tier, seed, spec, log):
-    return {"violations": [], "errors": [], "harnesses": 0, "harnesses_ok": 0, "samples": [], "summary": {}}
+    t0 = time.time()
+    wanted = harness_names(spec["select"])
+    args = ["-j", "16", "--output-format", "terse"]
+    for n in wanted:
+        args += ["--harness", n]
+    rc, out = _kani(args, 1800 if tier == "thorough" else 900)
+    res = {"violations": [], "errors": [], "harnesses": 0, "harnesses_ok": 0, "samples": [], "summary": {}}
+    m = re.search(r"Complete - (\d+) successfully verified harnesses, (\d+) failures, (\d+) total", out)
+    if not m:
+        res["errors"].append("kani did not complete (rc=%s): %s" % (rc, out[-1500:]))
+        return res
+    ok, failed_n, total = int(m.group(1)), int(m.group(2)), int(m.group(3))
+    failed = sorted(set(re.findall(r"Verification failed for - proofs::(\w+)", out)))
+    checked = sorted(set(re.findall(r"Checking harness proofs::(\w+)", out)))
+    missing = [n for n in wanted if n not in checked]
+    if missing:
+        res["errors"].append("kani did not run the harnesses %s" % missing)
+    if SELFTEST not in failed:
+        res["errors"].append("self-test harness %s did not fail: a returning call would go unnoticed" % SELFTEST)
+    covers_unreachable = len(re.findall(r"0 of 1 cover properties satisfied \(1 unreachable\)", out))
+    real_failed = [n for n in failed if n != SELFTEST]
+    for n in real_failed:
+        # one more run of that harness alone for the failing checks and concrete values
+        rc2, out2 = _kani(["--harness", n, "--exact", "-Z", "concrete-playback", "--concrete-playback=print"], 900)
+        checks = re.findall(r"Failed Checks: (.*)", out2)
+        test = ""
+        mt = re.search(r"(#\[test\][\s\S]*?\n\}\n)", out2)
+        if mt:
+            test = mt.group(1)
+        res["violations"].append({"engine": "kani", "harness": n, "label": "kani harness %s failed: %s" % (n, "; ".join(checks[:4]) or "see output"),
+                                  "confirmed": True, "model": {"concrete_playback_test": test[:3000]}, "failed_checks": checks[:10]})
+    res["harnesses"] = len(checked)
+    res["harnesses_ok"] = len([n for n in checked if n not in failed])
+    res["samples"] = [{"kani_harness": n, "status": ("FAILED" if n in failed else "SUCCESSFUL")} for n in checked[:6]]
+    res["summary"] = {"tool": "Kani 0.68.0 / CBMC 6.11.0 (cadical)", "harnesses_run": checked, "verified": [n for n in checked if n not in failed],
+                      "failed": failed, "expected_to_fail": [SELFTEST], "rejecting_harnesses_with_unreachable_return": covers_unreachable,
+                      "bounds": "concrete shapes (2x3, 3x2, 1x3 matrices; 4x4 tridiagonal/banded; 3x3 sparse; 2x3 and 3-node meshes), index arguments over ALL of usize, vector/polynomial sizes symbolic in 0..6; unwinding assertions on",
+                      "wall_s": round(time.time() - t0, 1)}
+    return res
+
+
+def write_replay(prop, v):
+    os.makedirs(os.path.join(VERIF, "replays"), exist_ok=True)
+    body = {"engine": "kani", "property": prop, "harness": v["harness"], "label": v["label"], "failed_checks": v.get("failed_checks"), "model": v.get("model")}
+    h = hashlib.sha1(json.dumps(body, sort_keys=True).encode()).hexdigest()[:10]
+    p = os.path.join(VERIF, "replays", "%s-kani-%s.json" % (prop, h))
+    json.dump(body, open(p, "w"), indent=1)
+    return p
+
+
+def replay(body):
+    rc, out = _kani(["--harness", body["harness"], "--exact"], 900)
+    print(out[-3000:])
+    if re.search(r"Verification failed for - proofs::%s" % re.escape(body["harness"]), out) or "VERIFICATION:- FAILED" in out:
+        print("REPRODUCED property=%s harness=%s" % (body["property"], body["harness"]))
+        return 1
+    print("not reproduced")
+    return 0
+
+
 if __name__ == "__main__":
-    sys.exit(0)
+    if "--setup" in sys.argv:
+        rc, out = _kani(["-j", "16", "--output-format", "terse"], 1800)
+        m = re.search(r"Complete - .*", out)
+        print("kani setup:", m.group(0) if m else out[-800:])
+        sys.exit(0 if m else 1)
